@@ -15,7 +15,10 @@ Print Assumptions C06_opaque_roundtrip.
 (* Every ID token of every flow's response: signed by the current key; iss, aud,
    azp, sub, nonce, acr, amr, auth_time from the request; iat = now - skew,
    exp - iat = lifetime + 2 skew; at_hash / c_hash over the access token and code of
-   this very response; user claims only for granted scopes; nothing else. *)
+   this very response; every standard claim group (profile, email, phone, address)
+   only if its scope is among [granted] = id_scopes: request scopes minus the client's
+   restriction, minus all userinfo scopes when an access token travels along and
+   the assertion flag is off (token exchange: the request's scopes); nothing else. *)
 Theorem C06_id_token_claims :
   forall (H : hkind -> string -> list nat) (E : list nat -> list nat)
          issuer f cl k u rq state ids en now j ic,
@@ -36,9 +39,11 @@ Theorem C06_id_token_claims :
     /\ i_at_hash ic = (if access_wire (r_access r) =s "" then ""
                        else claim_hash H (sk_alg k) (access_wire (r_access r)))
     /\ i_c_hash ic = (if flow_code f =s "" then "" else claim_hash H (sk_alg k) (flow_code f))
-    /\ (i_name ic <> "" -> string_in "profile" (granted f cl rq) = true)
-    /\ (i_email ic <> "" -> string_in "email" (granted f cl rq) = true)
-    /\ (i_email_verified ic = true -> string_in "email" (granted f cl rq) = true)
+    /\ (let g := granted f cl rq (access_wire (r_access r)) in
+        (i_name ic <> "" \/ i_username ic <> "" -> string_in "profile" g = true)
+        /\ (i_email ic <> "" \/ i_email_verified ic = true -> string_in "email" g = true)
+        /\ (i_phone ic <> "" \/ i_phone_verified ic = true -> string_in "phone" g = true)
+        /\ (i_addr ic <> "" -> string_in "address" g = true))
     /\ i_extra ic = [].
 Proof. exact id_token_claims. Qed.
 Print Assumptions C06_id_token_claims.
